@@ -151,7 +151,30 @@ func (x *Exec) diverseModels(rng *rand.Rand, k int) []map[string]interface{} {
 		}
 		return randomPin(in, t, i)
 	}
+	// separators at the edges of the sentence: first / last token empty
+	maxTok := ""
+	for _, in := range x.inputs {
+		if in.Kind == "token" && (len(in.Name) > len(maxTok) || (len(in.Name) == len(maxTok) && in.Name > maxTok)) {
+			maxTok = in.Name
+		}
+	}
+	edgeEmpty := func(last bool) pinf {
+		return func(in Input, t *Term, i int) *Term {
+			if in.Kind == "token" {
+				isEdge := (last && in.Name == maxTok) || (!last && (in.Name == "t0" || in.Name == "a0" || in.Name == "b0"))
+				if isEdge {
+					return Eq(t, BVi(int64(x.in.ID("")), IDW))
+				}
+				return Eq(t, BVi(int64(rng.Intn(2048)), IDW))
+			}
+			return randomPin(in, t, i)
+		}
+	}
 	strategies := []pinf{constPin(0, 0), constPin(255, 2047), leadZero}
+	if maxTok != "" {
+		strategies = append(strategies, edgeEmpty(false), edgeEmpty(true))
+		k += 2
+	}
 	for len(strategies) < k {
 		strategies = append(strategies, randomPin)
 	}
